@@ -50,11 +50,11 @@ func AttesterSlashingType(spec *common.Spec) *ContainerTypeDef {
 type AttesterSlashings []AttesterSlashing
 
 func (a *AttesterSlashings) Deserialize(spec *common.Spec, dr *codec.DecodingReader) error {
-	return dr.List(func() codec.Deserializable {
+	return common.ReadVariableSizeElemList(dr, func() codec.Deserializable {
 		i := len(*a)
 		*a = append(*a, AttesterSlashing{})
 		return spec.Wrap(&((*a)[i]))
-	}, 0, uint64(spec.MAX_ATTESTER_SLASHINGS_ELECTRA))
+	}, uint64(spec.MAX_ATTESTER_SLASHINGS_ELECTRA))
 }
 
 func (a AttesterSlashings) Serialize(spec *common.Spec, w *codec.EncodingWriter) error {
